@@ -35,6 +35,10 @@ FILES = {
     "luau_panic.lua": "local x = 5 & 3\n",
     "notlua/readme.txt": "not lua\n",
 }
+# written as bytes: not valid UTF-8 (read lossily, so it is linted like any other file)
+FILES_BIN = {"latin1.lua": b'local x = "caf\xe9"\nprint(undefined_thing)\n', "latin1_warn.lua": b'local caf = "\xe9\xe8"\n'}
+# options selene does not have, which are prefixes of ones it has: ignored in luacheck mode, whatever else is on the line
+UNKNOWN_OPTS = ["--allow", "--no", "--formatter=plain", "--codes", "--num", "--display"]
 MISSING = ["nope.lua", "ex_nope.lua", "sub/nope.lua", "vendor_missing"]
 # directories whose name ends in .lua: a directory walk lists them and reading them fails (EISDIR) - the one
 # "unreadable file" that can be produced when running as root
@@ -105,12 +109,14 @@ class C19(Prop):
                 p = os.path.join(pd, rel)
                 os.makedirs(os.path.dirname(p), exist_ok=True)
                 open(p, "w").write(text)
+            for rel, data in FILES_BIN.items():
+                open(os.path.join(pd, rel), "wb").write(data)
             for rel in UNREADABLE:
                 os.makedirs(os.path.join(pd, rel), exist_ok=True)
             open(os.path.join(pd, "selene.toml"), "w").write(
                 ctext.split("[lints]")[0] + "exclude = %s\n" % str(EXCLUDE).replace("'", '"') +
                 ("[lints]" + ctext.split("[lints]")[1] if "[lints]" in ctext else ""))
-            lua = [f for f in FILES if f.endswith(".lua") or f.endswith(".luau")]
+            lua = [f for f in FILES if f.endswith(".lua") or f.endswith(".luau")] + sorted(FILES_BIN)
             outcomes[cname] = cli.harness_lint(pd, os.path.join(pd, "selene.toml"), lua)
             if "__error__" in outcomes[cname]:
                 raise RuntimeError("harness lint failed: %r" % outcomes[cname]["__error__"])
@@ -120,7 +126,7 @@ class C19(Prop):
             oc = outcomes[cname]
             k = rnd.choice([1, 1, 2, 3, 4, 6])
             args, entries, desc_entries = [], [], []
-            pool = [f for f in FILES if f.endswith(".lua") and (cname == "luau" or f != "luau_panic.lua")]
+            pool = [f for f in FILES if f.endswith(".lua") and (cname == "luau" or f != "luau_panic.lua")] + sorted(FILES_BIN)
             for _ in range(k):
                 r = rnd.random()
                 if r < 0.62:
@@ -139,6 +145,16 @@ class C19(Prop):
                     entries.append("(EDir %s)" % cli.glist(
                         "{| f_excluded := %s; f_outcome := %s |}" % (cli.gbool(excluded(f)), "Unreadable" if f in UNREADABLE else outcome_term(oc[f]))
                         for f in inner))
+            # standard input as one of the "files" (never excluded): the bytes of one of the pool's files
+            stdin_data = None
+            if rnd.random() < 0.15:
+                f = rnd.choice(sorted(FILES_BIN)) if rnd.random() < 0.4 else rnd.choice([p for p in pool if p != "luau_panic.lua"])
+                stdin_data = FILES_BIN[f] if f in FILES_BIN else FILES[f].encode("utf-8")
+                if rnd.random() < 0.4:
+                    args, entries = [], []       # standard input alone decides the exit status
+                pos = rnd.randrange(len(args) + 1)
+                args.insert(pos, "-")
+                entries.insert(pos, "(EFile {| f_excluded := false; f_outcome := %s |})" % outcome_term(oc[f]))
             aw, ne, ns = rnd.random() < 0.5, rnd.random() < 0.4, rnd.random() < 0.25
             style = rnd.choice(["quiet", "quiet", "json2", "json2", "rich", "json", "luacheck"])
             threads = rnd.choice([1, 1, 3, 8])
@@ -149,10 +165,13 @@ class C19(Prop):
                 cl.append("--no-exclude")
             if ns:
                 cl.append("--no-summary")
+            if style == "luacheck" and rnd.random() < 0.5:
+                for _ in range(rnd.choice([1, 1, 2])):
+                    cl.insert(rnd.randrange(len(cl) + 1), rnd.choice(UNKNOWN_OPTS))
             if only is not None and only != i:
                 items.append(("", {}))
                 continue
-            rc, out, err = cli.run_selene(pd, cl + args)
+            rc, out, err = cli.run_selene(pd, cl + args, stdin=stdin_data if stdin_data is not None else b"")
             diags, summ, junk = cli.parse_output(out, style)
             pe = sum(1 for d in diags if d["severity"] == "error" and d["code"] != "parse_error")
             pw = sum(1 for d in diags if d["severity"] == "warning")
